@@ -67,6 +67,20 @@ PROPS["C06"] = {
     "assumptions": INST_ASSUME,
 }
 
+PROPS["C07"] = {
+    "streams": [{"name": "c07"}],
+    "nontrivial_op": "#ins:",
+    "rule": "c07: every history of the mixed generator is run twice on real ports, without and with inserted frames of the "
+            "property's classes (foreign domain / sdoId, PTP version != 2, malformed length — of every message type, even from the "
+            "parent; Announce bearing the port's own identity or from outside the acceptable master list; Sync / Follow_Up not from "
+            "the parent or to a non-slave port; Delay_Resp for another requester or from a non-parent), inserted at arbitrary "
+            "positions in every reachable port state. The two runs must be identical (two-run oracle on the implementation); "
+            "the model is compared on every inserted op (it must predict: no output, state unchanged). distinct = distinct inserted op lines",
+    "explanation": "Lean: ignored_noop for each class and noninterference for all histories and insertions; tie by the two-run stream",
+    "assumptions": INST_ASSUME + ["log output and CPU time are outside 'observationally identical'",
+                   "ignored_noop assumes an unacceptable Announce is not from the currently selected parent (the parent passed the list when it was selected)"],
+}
+
 
 def split_obs(obs):
     """(items, status, state) of an instance-stream observation line"""
@@ -87,6 +101,10 @@ def projection(pid, stream, profile):
             items, status, state = split_obs(obs)
             return status + " | " + state
         return f
+    if pid == "C07":
+        def f7(op, obs):
+            return obs if "#ins:" in op else None
+        return f7
     return ident
 
 
@@ -98,8 +116,11 @@ def count_nontrivial(pid, stream, ops, workdir):
         impl = open(impl_path).read().splitlines()
     except FileNotFoundError:
         impl = [""] * len(ops)
+    pat = PROPS.get(pid, {}).get("nontrivial_op")
     for o, i in zip(ops, impl):
-        if i in ("bad-op", ""):
+        if i in ("bad-op", "", "dead"):
+            continue
+        if pat and pat not in o:
             continue
         seen.add(o)
     return len(seen)
@@ -116,4 +137,4 @@ def replay_body(pid, stream, ops, idx):
     return ops[idx] + "\n"
 
 
-STATEFUL = {"inst", "bmca", "fml"}
+STATEFUL = {"inst", "bmca", "fml", "c07"}
